@@ -885,7 +885,7 @@ func C04(t Tier) int {
 	run := report.NewRun("C04", t.Name, "model_checking", "E1+E2")
 	sys := didSystem(didVariant{ID: "C04", Replays: true, EmptyID: true, Small: true, Ctl: []string{"NB", "RS", "XI"}})
 	dl := deadline(t, 120*time.Second, 15*time.Minute)
-	bounds := []explore.Bounds{{Depth: 4, V: 1, Deadline: dl}, {Depth: 5, V: 1, Deadline: dl}}
+	bounds := []explore.Bounds{{Depth: 3, V: 1, Deadline: dl}, {Depth: 4, V: 1, Deadline: dl}} // depth 5 (about 4 minutes with the replay entries) is left to the thorough tier
 	if t.Thorough {
 		bounds = []explore.Bounds{{Depth: 5, V: 1, Deadline: dl}, {Depth: 6, V: 1, Deadline: dl}, {Depth: 6, V: 2, Deadline: dl}, {Depth: 7, V: 2, Deadline: dl}}
 	}
@@ -919,7 +919,7 @@ func C11(t Tier) int {
 	run := report.NewRun("C11", t.Name, "model_checking", "E1+E2")
 	sys := didSystem(didVariant{ID: "C11", Mismatch: true, EmptyID: true, StrictID: true, Small: true, Prefix: true, Ctl: []string{"NB", "XI"}})
 	dl := deadline(t, 120*time.Second, 15*time.Minute)
-	bounds := []explore.Bounds{{Depth: 4, V: 1, Deadline: dl}, {Depth: 5, V: 1, Deadline: dl}}
+	bounds := []explore.Bounds{{Depth: 3, V: 1, Deadline: dl}, {Depth: 4, V: 1, Deadline: dl}} // depth 5 is left to the thorough tier
 	if t.Thorough {
 		bounds = []explore.Bounds{{Depth: 5, V: 1, Deadline: dl}, {Depth: 6, V: 1, Deadline: dl}, {Depth: 6, V: 2, Deadline: dl}, {Depth: 7, V: 2, Deadline: dl}}
 	}
